@@ -28,8 +28,12 @@ def judge_tree(tree) -> dict:
     try:
         adm = gates.admitted(pt)
     except gates.UnknownOperator as exc:
-        return {"verdict": "skip", "why": f"operator {exc} in inferred tree",
-                "tree": gates.show(tree), "inferred": gates.show_pt(pt)}
+        # the property is about an AND/OR/XOR gate tree: for a complete outcome family of a
+        # gate tree (the quantifier) anything else - a loop operator, say - is not one, and
+        # whether it "admits" the observed sets is not even defined
+        return {"verdict": "violated", "symptom": f"not-a-gate-tree:operator {exc}",
+                "detail": f"operator {exc} in inferred tree", "in_class": gates.in_exact_class(tree),
+                "tree": gates.show(tree), "inferred": gates.show_pt(pt), "family": fam_list}
     missing = fam - adm
     extra = adm - fam
     res = {"tree": gates.show(tree), "inferred": gates.show_pt(pt), "family": fam_list,
@@ -235,6 +239,9 @@ def main(tier: str, seed: int) -> int:
                            "inferred": u["inferred"], "missing": u["missing"],
                            "case": {k: c[k] for k in ("name", "jobs", "uuid_seed", "rng_seed")}},
                           tags=["in-situ"])
+    if insitu["skipped_operator"]:
+        chk.note_inconclusive(f"in-situ: {insitu['skipped_operator']} inferred trees held an "
+                              "operator outside AND/OR/XOR and could not be evaluated")
     chk.evaluations += insitu["checked"]
     chk.extra["in_situ_monitor"] = insitu
     if insitu["checked"] == 0:
